@@ -1,6 +1,6 @@
 """Schedule exploration on small graphs (C04, C05, C06): completion orders are enumerated exhaustively
 by nsim (stateless re-execution over choice lists) or sampled; the monitors below judge every trace."""
-import copy, json, random
+import copy, json, os, random
 from . import simlib, gen, model, util, core
 from .simlib import all_outs, rsp_string, hhex, DiskReplay
 from .logmodel import parse_build_log, parse_deps_log, deps_view
@@ -387,7 +387,7 @@ def monitor_c06(ctx, scn, tv):
         if exp is not None:
             started_ids = {tv.sid_of[o] for o in start_idx if o in tv.sid_of}
             missing = exp - started_ids
-            missing -= {sid for sid in missing if any(g.restat(g.by_id[a]) for a in tv.ancestors(sid))}
+            # (the model simulates restat commands forward: what they leave untouched is pruned in `exp` as well)
             ctx.count("c06_exit0_completeness_checks")
             if missing:
                 ctx.violation("C06/exit-0-with-work-left%s" % ("/load-limited" if step.get("load_caps") else ""),
@@ -782,12 +782,18 @@ def judge_missing_source(ctx, scn, step, tr):
     src = step["_missing_source"]
     res = tr["result"]
     starts = [e["o"] for e in tr["events"] if e["e"] == "S"]
+    how = step.get("_missing_how", "primary")
     ctx.count("c05_missing_source_cases")
+    ctx.count("c05_missing_source_" + how)
     ctx.nontrivial((scn["id"], "missing-source"))
-    if res.get("exit") == 0:
-        ctx.violation("C05/missing-source/accepted", "scenario %s: declared source %s is missing, ninja exit 0" % (scn["id"], src), {"scenario": scn})
+    if res.get("exit") == 0 and step.get("_missing_victim") not in starts and ("order-only" in how or how.endswith("/oins")):
+        # an order-only input does not make its statement out of date: when that statement has nothing to run there is nothing the
+        # file is needed for (the property speaks of commands that would run); what else is built meanwhile is not the point
+        ctx.count("c05_missing_order_only_source_nothing_to_run")
+    elif res.get("exit") == 0:
+        ctx.violation("C05/missing-source/accepted/%s" % how, "scenario %s: declared source %s (%s) is missing, ninja exit 0" % (scn["id"], src, how), {"scenario": scn})
     elif starts:
-        ctx.violation("C05/missing-source/commands-ran", "scenario %s: %s missing, but %s were started before the error" % (scn["id"], src, starts),
+        ctx.violation("C05/missing-source/commands-ran/%s" % how, "scenario %s: %s (%s) missing, but %s were started before the error" % (scn["id"], src, how, starts),
                       {"scenario": scn})
     elif ("'%s'" % src) not in (res.get("err") or "") or "missing and no known rule to make it" not in (res.get("err") or ""):
         ctx.violation("C05/missing-source/message", "scenario %s: error does not name %s: %r" % (scn["id"], src, res.get("err")), {"scenario": scn})
